@@ -12,7 +12,8 @@ open Grol
 def suites : List (String × (String → String → CaseResult)) :=
   [ ("trie", TrieSuite.runCase),
     ("sanitize", SanitizeSuite.runCase),
-    ("autosave", AutoSaveSuite.runCase) ]
+    ("autosave", AutoSaveSuite.runCase),
+    ("memory", MemorySuite.runCase) ]
 
 structure DAcc where
   cases : Nat := 0
